@@ -362,6 +362,9 @@ def w_chain(case, led):
                                "terms": [repr(t) for t in terms],
                                "how": "vk.specs.chain.model_zoo / universe.make_state / chain.apply_gauge regenerate the state; then x.dump(f); type(x).load(model, f)"}
                         nontriv = n >= 2 and max(x.bond_dims) > 1
+                        if name == "spin2qn" and n == 4 and g == "center" and cplx and not led.samples:
+                            led.samples.append(dict(rep, part="round trip", state=describe(x), later_ops=[o[0] for o in ops],
+                                                    contract="load(dump(x)): tensors bit-identical; qn per bond, qnidx, qntot, to_right, coeff identical; later ops same result"))
                         chain_roundtrip(led, x, model, fname, key, rep, ops, nontriv, scale=hscale * (1.0 + float(np.linalg.norm(S.dense(x))) ** 2))
         # ---- operators (MatrixProduct.load)
         for cf in (False, True):
@@ -405,7 +408,7 @@ def w_spill(case, led):
     model, sectors = S.model_zoo(name, n)
     sel = list(sectors)
     rng.shuffle(sel)
-    sel = sel[:1] if tier == "quick" else sel[:3]
+    sel = sel[:1] if tier == "quick" else sel[:2]
     terms = U.random_terms(model, rng, 4, complex_factors=False)
     H = Mpo(model, terms) if terms else None
     hscale = 1.0 + sum(abs(t.factor) for t in terms)
@@ -626,6 +629,8 @@ def w_tree(case, led):
                 rep = {"basis": kind, "ndof": n, "tree": shape, "qntot": qntot, "state": sname, "coeff": x.coeff, "seed": seed, "version_written": ver,
                        "shapes": [list(nd.tensor.shape) for nd in x.node_list], "terms": [repr(t) for t in terms],
                        "how": "props.C14.tree_basis/tree_of/seeded_tree regenerate the state; x.dump(f); TTNS.load(x.basis, f)"}
+                if kind == "hol" and shape == "binary" and sname == "complex_compressed" and not led.samples:
+                    led.samples.append(dict(rep, part="round trip (tree)", later_ops=[o[0] for o in ops]))
                 d = tree_diff(before, x)
                 led.check(not d, "frame:TTNBase.dump:source_unchanged", "TTNBase.dump", f"dump changed the dumped tree in {d[:4]}", key, fields, rep, nontriv)
                 try:
@@ -773,10 +778,13 @@ def initial_snapshot(name):
     return snap
 
 
-def _short(a):
+def _short(a, d=None):
     out = []
     for x in a[:2]:
         if isinstance(x, (str, bytes, os.PathLike)):
+            if d is not None and os.path.abspath(os.fspath(x)) == os.path.abspath(d):
+                out.append("dir")
+                continue
             b = os.path.basename(os.fspath(x))
             out.append({FNAME: "F", BNAME: "bak"}.get(b, b))
         else:
@@ -809,7 +817,7 @@ class Ctl:
         cur = self.dumps[-1]
         i = self.idx
         self.idx += 1
-        desc = f"{name}({_short(a)})"
+        desc = f"{name}({_short(a, self.d)})"
         self.log.setdefault(self.dump_no, []).append((desc, nonatomic))
         flt = next((f for f in self.faults if f["dump_no"] == self.dump_no and f["idx"] == i), None)
         if flt is not None and flt["phase"] == "before":
@@ -1043,6 +1051,12 @@ def _w_crash(case, led):
             k1 = ("crash", init, s1, mode) + fkey(f1)
             rep1 = dict(rep0, segments=[{"base": 100, "nsteps": n1, "faults": pre_faults + [f1]}])
             judge(led, r1, n1, k1, base_fields, rep1, "initial" if (mode == "crash" and s1 == 1) else ("same_job" if mode == "crash" else "after_ioerror"))
+            if init in ("F=partial,bak=complete", "F=complete,bak=absent") and s1 == 1 and mode == "crash" and len(led.samples) < 2 and p1["phase"] == "after":
+                dd = r1["ctl"].dumps[-1]
+                led.samples.append({"part": "crash", "initial_state": init, "crashed_step": s1, "crash": f"{p1['phase']} {r1['ctl'].crash['op']}",
+                                    "executed_before_crash": dd["executed"], "directory_after_crash": state_str(r1["final"]),
+                                    "complete_generations_after_crash": sorted(g for g in r1["final"].values() if g is not None),
+                                    "then": "restart without fault, and restart with a second crash at every point of its steps 1..2 followed by a third life"})
             snap1 = snapshot(d)
             # ---- restart (new job object, same directory), no further crash
             r2 = run_segment(d, 200, n2, [])
@@ -1118,8 +1132,10 @@ def check(run):
             cases.append(("crash", init, s1, "crash", seed, tier))
         for s1 in (1, 2):
             cases.append(("crash", init, s1, "ioerror", seed, tier))
+    seeds = [seed] if tier == "quick" else [seed, seed + 1]
     for name, n in U.chain_cases(tier, seed):
-        cases.append(("chain", name, n, seed, tier))
+        for sd in seeds:
+            cases.append(("chain", name, n, sd, tier))
         if n >= 2 or tier == "thorough":
             cases.append(("spill", name, n, seed, tier))
     ns = [1, 2, 3, 5] if tier == "quick" else [1, 2, 3, 4, 5, 6, 7]
@@ -1127,9 +1143,14 @@ def check(run):
     for kind in TREE_KINDS:
         for n in ns:
             for shape in shapes:
-                cases.append(("tree", kind, n, shape, seed, tier))
+                for sd in seeds:
+                    cases.append(("tree", kind, n, shape, sd, tier))
+    only = [o for o in (getattr(run, "only", None) or []) if o in ("crash", "chain", "spill", "tree")]
+    if only:      # debugging aid (./check C14 --only crash,tree): restrict to some parts; the evidence then says so
+        cases = [c for c in cases if c[0] in only]
+        run.extra["restricted_to_parts"] = only
     run_cases(run, worker, cases)
-    run.exhaustive = True
+    run.exhaustive = not only or "crash" in only
     run.rule = ("CRASH PART (exhaustive): initial directory state of {job.npz, job.npz.bak} in {absent, partial, complete}^2 restricted to 'a complete file "
                 "exists or both absent' (6 states) x crashed step 1..3 x every file-system call made from the tdmps namespace during that dump_dict "
                 "(os.makedirs/exists/remove/rename/replace/..., np.savez) x {before, after; for the non-atomic np.savez also truncated at 0 bytes / half / "
@@ -1141,14 +1162,6 @@ def check(run):
                 "real/complex factors, the same through the spill-to-disk path, TTNS on {linear, binary, MCTDH, T3NS} trees with 0/1/2 quantum numbers x "
                 "6 state histories; non-trivial = >= 2 sites and a bond dimension > 1; distinct = distinct (model, size, sector, dtype, gauge, class, "
                 "format version, clause/later operation) tuples")
-    run.sample({"part": "crash", "initial_state": "F=partial,bak=complete", "step": 1, "crash": "after remove(bak)",
-                "contract": "some file in the directory loads completely with np.load and holds the data of the current or of the newest previously complete dump"})
-    run.sample({"part": "crash", "initial_state": "F=complete,bak=absent", "step": 2, "crash": "during savez(F), truncated at half; restart; second crash "
-                "before rename(F,bak) in step 1 of the restarted job; third life runs 2 steps", "contract": "same invariant after each crash; restarted job finishes "
-                "with its last step on disk"})
-    run.sample({"part": "round trip", "model": "spin2qn", "nsites": 4, "sector": [1, 1], "complex": True, "gauge": "center", "class": "MpDm", "coeff": "0.3-0.2j",
-                "contract": "MpDm.load(model, f) after x.dump(f): tensors bit-identical, qn per bond, qnidx, qntot, to_right, coeff identical; "
-                "ensure_left/right_canonical, compress, expectation, one tdvp_ps step give bit-identical results on both"})
     run.explanation = ("Crash safety is checked by fault enumeration on the real TdMpsJob.dump_dict/evolve: the tdmps module's `os` and `np` names are replaced "
                        "by recording proxies that raise a BaseException (process death) before/after every file-system call or leave a truncated file for the "
                        "non-atomic write; the directory is then judged only by np.load (a file counts iff every entry loads and equals the data of one dump). "
